@@ -602,4 +602,89 @@ theorem runUntilT_aborted {f : Nat} {s s' : Sim} {T : Int} {tr : List (Ev × Nat
         have : s'.raised = s.raised := by rw [← h.1]; rfl
         rw [this, h0] at hx; simp at hx
 
+/-! ### progress for pieces: when the uninterrupted run to `T` terminates, so does every piece within `T`, and the rest of the
+    uninterrupted run after it (same fuel) -/
+
+theorem runUntilC_piece {g : Nat} {s s₂ : Sim} {t T : Int} (ht : t ≤ T) (hw : WF s) (h0 : s.raised = none)
+    (h : runUntilC g s T = some s₂) : ∃ s₁, runUntil g s t = some s₁ ∧ runUntilC g (caught s₁) T = some s₂ := by
+  induction g generalizing s with
+  | zero => simp [runUntilC] at h
+  | succ g ih =>
+    cases hp : popLive s.pending with
+    | none =>
+      rw [runUntilC_none hp] at h
+      refine ⟨_, runUntil_none hp, ?_⟩
+      rw [runUntilC_none (by rfl), ← h]
+      simp only [caught, skipped, List.takeWhile_nil, List.map_nil, List.append_nil, h0]
+    | some p =>
+      obtain ⟨e, rest⟩ := p
+      obtain ⟨hlive, hlt, hsr⟩ := popLive_spec hw.sorted hp
+      by_cases hT : e.time ≤ t
+      · have hT2 : e.time ≤ T := Int.le_trans hT ht
+        rw [runUntilC_due hp hT2] at h
+        cases hxx : (exec (popped s e rest) e).raised.isSome with
+        | true => exact ⟨_, runUntil_due_raised hp hT hxx, runUntilC_fuel_succ h⟩
+        | false =>
+          have hcalm := raised_none_of_isSome_false hxx
+          rw [caught_of_calm hcalm] at h
+          obtain ⟨s₁, h1, h2⟩ := ih (exec_wf (popped_wf hw hp) e) hcalm h
+          exact ⟨s₁, by rw [runUntil_due hp hT hxx]; exact h1, runUntilC_fuel_succ h2⟩
+      · refine ⟨_, runUntil_late hp hT, ?_⟩
+        have hpl : popLive (caught { popped s e rest with now := t, pending := insert e rest }).pending = some (e, rest) := by
+          show popLive (insert e rest) = some (e, rest)
+          rw [insert_of_all_lt e rest hlt, popLive_cons_live e rest hlive]
+        have hsk : skipped (insert e rest) = [] := by
+          rw [insert_of_all_lt e rest hlt]; exact skipped_cons_live hlive
+        by_cases hT2 : e.time ≤ T
+        · rw [runUntilC_due hp hT2] at h
+          rw [runUntilC_due hpl hT2, ← h]
+          simp only [popped, caught, hsk, List.map_nil, List.append_nil, h0]
+        · rw [runUntilC_late hp hT2] at h
+          rw [runUntilC_late hpl hT2, ← h]
+          simp only [popped, caught, hsk, List.map_nil, List.append_nil, h0]
+
+theorem runUntilC_next_piece {g : Nat} {s s₂ : Sim} {T : Int} (h0 : s.raised = none)
+    (hT : ∀ e rest, popLive s.pending = some (e, rest) → e.time ≤ T)
+    (h : runUntilC g s T = some s₂) : runUntilC g (caught (runNext s)) T = some s₂ := by
+  cases g with
+  | zero => simp [runUntilC] at h
+  | succ g =>
+    cases hp : popLive s.pending with
+    | none =>
+      rw [runUntilC_none hp] at h
+      have hrn : runNext s = { s with pending := [], gone := s.gone ++ (skipped s.pending).map (·.id) } := by
+        simp only [runNext, hp]
+      rw [hrn, runUntilC_none (by rfl), ← h]
+      simp only [caught, skipped, List.takeWhile_nil, List.map_nil, List.append_nil, h0]
+    | some p =>
+      obtain ⟨e, rest⟩ := p
+      rw [runUntilC_due hp (hT e rest hp)] at h
+      have hrn : runNext s = exec (popped s e rest) e := by simp only [runNext, hp, popped]
+      rw [hrn]
+      exact runUntilC_fuel_succ h
+
+/-- **progress for pieces**: if the uninterrupted run to `T` terminates with fuel `g`, then every list of pieces within `T`
+    (exceptions caught in between) terminates with that fuel, and the uninterrupted run from where the pieces end reaches the
+    same final state -/
+theorem pieces_of_runUntilC {g : Nat} {s s₂ : Sim} {T : Int} {ps : List Piece} (hw : WF s) (h0 : s.raised = none)
+    (hin : piecesWithinC g T s ps) (h : runUntilC g s T = some s₂) :
+    ∃ s₁, runPiecesC g s ps = some s₁ ∧ runUntilC g s₁ T = some s₂ := by
+  induction ps generalizing s with
+  | nil => exact ⟨s, rfl, h⟩
+  | cons p ps ih =>
+    obtain ⟨hp, hrest⟩ := hin
+    have key : ∃ sm, runPieceC g s p = some sm ∧ WF sm ∧ sm.raised = none ∧ runUntilC g sm T = some s₂ := by
+      cases p with
+      | «until» t =>
+        obtain ⟨s₁, h1, h2⟩ := runUntilC_piece hp hw h0 h
+        exact ⟨caught s₁, by simp [runPieceC, runPiece, h1], caught_wf (runUntil_wf hw h1), rfl, h2⟩
+      | «for» d =>
+        obtain ⟨s₁, h1, h2⟩ := runUntilC_piece hp hw h0 h
+        exact ⟨caught s₁, by simp [runPieceC, runPiece, runFor, h1], caught_wf (runUntil_wf hw h1), rfl, h2⟩
+      | next =>
+        exact ⟨caught (runNext s), by simp [runPieceC, runPiece], caught_wf (runNext_wf hw), rfl, runUntilC_next_piece h0 hp h⟩
+    obtain ⟨sm, hsm, hwm, hcm, hum⟩ := key
+    obtain ⟨s₁, h1, h2⟩ := ih hwm hcm (hrest sm hsm) hum
+    exact ⟨s₁, by simp only [runPiecesC, hsm]; exact h1, h2⟩
+
 end Mesa.Devs
